@@ -149,6 +149,11 @@ def handle (op : String) (args : List String) (impl : String) : Option Verdict :
     -- the Substrate executor signs a delivery under its message id — for every relayer, fresh or not
     let m := if pending then subSessionId msgId else "-"
     return ⟨m, impl == m, s!"subsession:pending={pending}:n={min (items statuses ",").length 3}"⟩
+  | "btcsessionu", [_msgId, n, np, unk] => some <| Id.run do
+    let some n := n.toNat? | return bad
+    -- transfers of an unconfigured resource in the same delivery do not keep the configured resource from being signed,
+    -- under the same per-input session ids on every relayer and in every run (map order must not decide)
+    return ⟨s!"same:{n}", impl == s!"same:{n}", s!"btcsessionu:inputs={n}:props={np}:unknown={unk}"⟩
   | "btcsession", [_msgId, n, np] => some <| Id.run do
     let some n := n.toNat? | return bad
     -- per-input session ids = hex sighashes: identical for every relayer / history, one per input
